@@ -376,7 +376,8 @@ def stack(*args, **keywords):
 
     # Construct the result
     result = Qube.__new__(type(args[subclass_indx]))
-    result.__init__(values, mask, units=units, drank=drank)
+    result.__init__(values, mask, units=units,
+                    nrank=args[subclass_indx]._nrank_, drank=drank)
 
     # Fill in derivatives if necessary
     if recursive:
